@@ -1507,7 +1507,13 @@ impl<'a, T, L: MutLayout> ExactSizeIterator for AxisChunks<'a, T, L> {}
 impl<'a, T, L: MutLayout> DoubleEndedIterator for AxisChunks<'a, T, L> {
     fn next_back(&mut self) -> Option<Self::Item> {
         let remainder = self.remainder.take()?;
-        let chunk_len = self.chunk_size.min(remainder.size(self.axis));
+
+        // The last chunk is shorter than the others if the size of the axis is
+        // not a multiple of the chunk size.
+        let chunk_len = match remainder.size(self.axis) % self.chunk_size {
+            0 => self.chunk_size,
+            tail => tail,
+        };
         let (prev_remainder, current) =
             remainder.split_at(self.axis, remainder.size(self.axis) - chunk_len);
         self.remainder = if prev_remainder.size(self.axis) > 0 {
@@ -1582,7 +1588,13 @@ impl<'a, T, L: MutLayout> DoubleEndedIterator for AxisChunksMut<'a, T, L> {
     fn next_back(&mut self) -> Option<Self::Item> {
         let remainder = self.remainder.take()?;
         let remainder_size = remainder.size(self.axis);
-        let chunk_len = self.chunk_size.min(remainder_size);
+
+        // The last chunk is shorter than the others if the size of the axis is
+        // not a multiple of the chunk size.
+        let chunk_len = match remainder_size % self.chunk_size {
+            0 => self.chunk_size,
+            tail => tail,
+        };
         let (prev_remainder, current) =
             remainder.split_at_mut(self.axis, remainder_size - chunk_len);
         self.remainder = if prev_remainder.size(self.axis) > 0 {
